@@ -45,8 +45,9 @@ def ragged_kinds(fmt, with_cell, with_time, extras=None):
             out.append('add_extra')
     if fmt == 'pdb':
         # each write() is one MODEL with its own topology argument and the file holds a single CRYST1 record:
-        # neither atom count nor cell presence is a per-write schema the file object could police
-        return out
+        # neither atom count nor cell presence is a per-write schema the file object could police.  What it does refuse is a
+        # call whose coordinates do not fit the topology handed over with them -- at any point, also as the very first call
+        return ['top_mismatch']
     out.append('natoms')
     if fmt == 'gro':
         # every gro frame carries a box line (zeros when no cell is given): cell presence is not a file schema
@@ -133,7 +134,7 @@ def generate(check, rng, tier, run_index):
     for j in range(nops):
         kinds = [('write', 10), ('flush', 2 if c['flush'] and mode == 'raw' else 0),
                  ('reopen', 1 if fmt == 'h5' else 0),
-                 ('ragged', 3 if (mode != 'faultfree' and rag and j > 0 and n_ragged < 2) else 0)]
+                 ('ragged', 3 if (mode != 'faultfree' and rag and (j > 0 or fmt == 'pdb') and n_ragged < 2) else 0)]
         k = rng.weighted(kinds)
         if k == 'write':
             # mostly a few frames per call; now and then a long stretch (a buffered reporter, a whole chunk of another file)
@@ -558,9 +559,9 @@ def _execute(check, case, workdir):
                 res.log.append('%d reopen-append' % stepno)
                 res.trace.append((fmt, 'reopen'))
             elif kind == 'ragged':
-                if not accepted:
-                    continue        # no schema yet: nothing can be ragged
                 rk = op['kind']
+                if not accepted and rk != 'top_mismatch':
+                    continue        # no schema yet: nothing can be ragged
                 if rk not in ragged_kinds(fmt, with_cell, with_time, case.get('extras')):
                     continue
                 k = op['k']
@@ -582,6 +583,9 @@ def _execute(check, case, workdir):
                     t_ = src['time'][ids]
                 elif rk == 'drop_time':
                     t_ = None
+                elif rk == 'top_mismatch':
+                    x = x[:, :n_atoms - 1]
+                    rtop = top
                 ex = _extras(case, src, ids)
                 if rk == 'drop_extra':
                     ex = _extras(case, src, ids, names=case['extras'][1:])
@@ -744,7 +748,7 @@ def _child_history(case, workdir):
             w.close()
             w.open('a')
         elif op['op'] == 'ragged':
-            if n_acc == 0:
+            if n_acc == 0 and op.get('kind') != 'top_mismatch':
                 continue
             cursor += op['k']     # the child skips the faulty write itself; positions stay aligned
 
